@@ -9,7 +9,7 @@ fn any_prefix<'a>(buf: &'a [u8]) -> &'a [u8] {
     &buf[..n]
 }
 
-// @harness name=total_sticky_v1 kind=bounded tiers=quick,thorough domain="all byte strings of length 0..=12 whose scope tag is 0 or 2 (ID scopes; tag 1 allocates a string)" bound="input length <= 12 bytes" target="StickyIndex::decode_v1 (IndexScope::decode, Assoc::decode, ClientID::new)" timeout=900
+// @harness name=total_sticky_v1 kind=bounded tiers=thorough domain="all byte strings of length 0..=12 whose scope tag is 0 or 2 (ID scopes; tag 1 allocates a string)" bound="input length <= 12 bytes" target="StickyIndex::decode_v1 (IndexScope::decode, Assoc::decode, ClientID::new)" timeout=900
 #[kani::proof]
 #[kani::unwind(24)]
 fn total_sticky_v1() {
